@@ -322,7 +322,7 @@ def run_task(task):
 
 
 def plan(tier, seed):
-    total = 2000 if tier == "quick" else 25000
+    total = 3200 if tier == "quick" else 25000
     W = 16
     tasks = [{"n": total // W, "seed": seed * 1000 + w, "shrink": 150 if tier == "quick" else 1500}
              for w in range(W)]
